@@ -78,7 +78,7 @@ fn kv_place(track: &mut Track, s: KvSound) {
 	std::mem::forget(r);
 }
 
-// @h prop=C02,C11 tier=quick kind=main timeout=280
+// @h prop=C02,C11 tier=quick kind=main timeout=600
 // @bounds one Track::process of a 2-frame chunk: two probe sounds (symbolic small-integer signals), two ordered probe effects (x*2 then x+1), track volume 0 dB or -60 dB (symbolic), no sends
 // @funcs Track::process, Parameter::<Decibels>::{update,interpolated_value}, Decibels::as_amplitude, PlaybackStateManager::{update,interpolated_fade_volume}
 // @catches a sound mixed twice or not at all; scratch buffer not cleared between sounds (signal leaking from one into the next); effects applied in the wrong order or after the volume; volume skipped; sounds asked for more than the chunk
@@ -119,7 +119,7 @@ fn kv_route(silent: bool) -> SendTrackRoute {
 	SendTrackRoute { volume: Parameter::new(Value::Fixed(kv_gain(silent)), Decibels::IDENTITY), set_volume_command_reader: rd }
 }
 
-// @h prop=C02 tier=quick kind=main timeout=400
+// @h prop=C02 tier=quick kind=main timeout=900
 // @bounds Track with one probe sound and TWO send routes to two real SendTracks of which the FIRST may have been removed (symbolic); all gains 0 dB; one 1-frame chunk
 // @funcs Track::process (send loop), SendTrack::add_input, ResourceStorage::get_mut
 // @catches a removed send aborting the remaining routes (return instead of continue); a send fed twice
@@ -180,7 +180,7 @@ fn c02_send_is_post_fader_times_route_times_send_volume() {
 	std::mem::forget(track); std::mem::forget(st); std::mem::forget(stc); std::mem::forget(w);
 }
 
-// @h prop=C12,C02 tier=quick kind=main timeout=280
+// @h prop=C12,C02 tier=quick kind=main timeout=600
 // @bounds Track whose state machine is Paused or WaitingToResume (delay pending), with a probe sound and a probe effect: one 2-frame chunk; and the same track Playing as the control
 // @funcs Track::process (is_advancing gate), PlaybackStateManager::update
 // @catches a paused / waiting track still running its sounds and effects (positions advance while silent), or emitting signal
@@ -231,7 +231,7 @@ fn c12_track_state_total() {
 	kani::cover!(sel == 6, "w:stopped");
 }
 
-// @h prop=C12 tier=quick kind=main timeout=280
+// @h prop=C12 tier=quick kind=main timeout=600
 // @bounds Track::should_be_removed over: handle dropped or not, persist_until_sounds_finish on/off, 0 or 1 sound alive (no child tracks: nesting is outside, see DESIGN)
 // @funcs Track::should_be_removed, TrackShared::{is_marked_for_removal,mark_for_removal}
 // @catches a persistent track removed while its sounds still play; a track removed without its handle having been dropped
@@ -248,7 +248,7 @@ fn c12_should_be_removed_truth_table() {
 	std::mem::forget(track);
 }
 
-// @h prop=C16 tier=quick kind=main timeout=280
+// @h prop=C16 tier=quick kind=main timeout=600
 // @bounds Track with two probe effects: init_effects(rate A) then on_change_sample_rate(rate B), A and B symbolic u32
 // @funcs Track::{init_effects,on_change_sample_rate}
 // @catches an effect not told the new sample rate (only the first effect, or none) - one level; nesting is outside
